@@ -22,6 +22,7 @@ Write == /\ ~done /\ Len(hist) < MaxSteps
                LET e == [t |-> "write", owner |-> c.owner, fmt |-> c.fmt, sep |-> c.sep, header |-> c.header, enc |-> c.enc,
                          stem |-> st, suffix |-> sf, c |-> k, ext |-> x] IN
                /\ (x => ExtOK(c) /\ sf = "" /\ c.enc = "utf-8")
+               /\ (k = 7 => c.owner = "df" /\ c.fmt = "csv" /\ ~x)       \* class 7 (a file larger than a reader's block) only through CSV
                /\ (~c.header => k # 6)      \* without a header line the reader names the columns a, b, c, ...: class 6 is not so named
                /\ (hist # <<>> => hist[1].owner = c.owner /\ hist[1].fmt = c.fmt)     \* one format per behaviour keeps the space small
                /\ fs' = WriteFS(fs, e) /\ hist' = Append(hist, e)
